@@ -563,6 +563,9 @@ pub fn gen_prog(rng: &mut StdRng, cfg: &GenCfg, depth: usize, prefix: &str) -> P
             t
         } else if rng.gen_bool(cfg.p_unnamed) {
             String::new()
+        } else if rng.gen_bool(0.04) {
+            // blanks at either end belong to the name like any other character
+            format!(" {}edge {} ", prefix, k)
         } else if rng.gen_bool(cfg.p_weird_name) {
             format!("{}{} {}", prefix, WEIRD.choose(rng).unwrap(), k)
         } else {
